@@ -1954,6 +1954,35 @@ def close_is_thread_tolerant(ctx: Ctx, rule: str):
                      f"the closed socket raises OSError(EBADF) - uncaught in the I/O thread, which ends",
                      rule=rule, expected="socket = self.peer_sockets.pop(ident, None), or a lock around the close")
             break
+    # once the socket has been taken out of the table nobody else will close it or remove the
+    # connection: from there every path - exceptional ones included - reaches peer_socket.close()
+    # and remove_peer_connection().  A call that can fail in between (getpeername() on a socket that
+    # never connected or was reset: ENOTCONN) leaves the socket open, the connection in the other
+    # tables and as Peer.connection, no disconnect record - and ends the I/O thread when it is the caller
+    cons = "close_connection_socket:completes-once-socket-taken"
+    ctx.inst(cons, rule=rule)
+    from ..effects import fault_effects_of
+    Fc = fault_effects_of(model)
+    gcl = cfg_of(cl, effects=Fc, inline=False)
+    takes = [n for n in gcl.nodes if n.kind == "stmt" and any(
+        isinstance(c.func, ast.Attribute) and c.func.attr == "pop" and A.dotted(c.func.value) == "self.peer_sockets"
+        for c in n.calls())]
+    removes = [n for n in gcl.nodes if n.kind == "stmt" and any(
+        A.call_name(c) == "self.remove_peer_connection" for c in n.calls())]
+    if takes and removes:
+        between = gcl.reach([d for l, d in takes[0].succ if l not in ("exc", "raise")], blocked=removes)
+        for n in sorted(between, key=lambda x: x.line):
+            if n.raises and any(d is gcl.raise_exit for l, d in n.succ if l in ("exc", "raise")):
+                ctx.fail(cons, gcl.loc(n), f"`{n.text(70)}` can raise {sorted(n.raises)} after the socket has been "
+                         f"taken out of peer_sockets and before remove_peer_connection(): the socket is never "
+                         f"closed, the connection stays in `connections` and as Peer.connection without a "
+                         f"disconnect record (a persistent peer is not dialled again), and the exception ends "
+                         f"the I/O thread when close_connection_socket was called from it "
+                         f"({'; '.join(Fc.why_at(cl, sorted(n.raises)[0], n.line))[:160]})", rule=rule,
+                         expected="nothing escapes between peer_sockets.pop() and remove_peer_connection()")
+                break
+    elif not removes:
+        ctx.error("close_connection_socket does not call remove_peer_connection", rule=rule)
     cons = "remove_peer_connection:tolerant-removals"
     ctx.inst(cons, rule=rule)
     for n in A.walk_no_nested(rm.node):
